@@ -74,7 +74,7 @@ HASH_OPS = {'sha256': 0xa8, 'ripemd160': 0xa6, 'hash256': 0xaa, 'hash160': 0xa9}
 # ---------------------------------------------------------------- cases: (kind, payload...)
 @st.composite
 def cases(draw):
-    k = draw(st.sampled_from(['hash', 'hash', 'hash-str', 'tagged', 'b58', 'b58-corrupt', 'bech32', 'bech32-corrupt', 'compact', 'reverse', 'len', 'addsub', 'addsub-group', 'jacobi', 'addr', 'pubkeys', 'echo']))
+    k = draw(st.sampled_from(['hash', 'hash', 'hash-str', 'tagged', 'b58', 'b58-corrupt', 'bech32', 'bech32-corrupt', 'bech32-padding', 'compact', 'reverse', 'len', 'addsub', 'addsub-group', 'jacobi', 'addr', 'pubkeys', 'echo']))
     if k == 'hash':
         return (k, draw(st.sampled_from(sorted(HASHES))), draw(blobs))
     if k == 'hash-str':
@@ -86,6 +86,8 @@ def cases(draw):
                                   st.sampled_from([196, 199, 200, 201, 253, 520]).flatmap(lambda n: st.binary(min_size=n, max_size=n)))), draw(st.integers(0, 10 ** 6)))
     if k in ('bech32', 'bech32-corrupt'):
         return (k, draw(st.sampled_from(['bech32-encode', 'bech32m-encode'])), draw(st.one_of(st.binary(min_size=2, max_size=40), st.sampled_from([bytes(20), bytes(32), bytes(range(32))]))), draw(st.integers(0, 10 ** 6)))
+    if k == 'bech32-padding':
+        return (k, draw(st.sampled_from([20, 32, 2, 33, 40])), draw(st.binary(min_size=40, max_size=40)), draw(st.sampled_from(['nonzero', 'extra-group', 'valid'])), draw(st.booleans()))
     if k in ('compact', 'reverse', 'len', 'echo'):
         return (k, draw(blobs))
     if k == 'addsub':
@@ -265,6 +267,30 @@ def check(c, ctx):
                 raise Violation(c, 'bech32(m) string with a corrupted character was accepted', observed=r)
             if want is not None and rejected:
                 raise Violation(c, 'valid bech32(m) string rejected', observed=r)
+    elif k == 'bech32-padding':
+        # a correctly checksummed string whose 5-bit groups do not convert back to whole bytes: non-zero padding bits, or a whole group of padding
+        # (BIP173: decoders must reject both)
+        _, n, raw, how, m = c
+        groups = B32.convertbits(raw[:n], 8, 5)
+        pad_bits = len(groups) * 5 - n * 8
+        if how == 'nonzero':
+            if pad_bits == 0:
+                return
+            groups[-1] |= 1
+        elif how == 'extra-group':
+            groups.append(0)
+        enc = B32.encode('bc', [1 if m else 0] + groups, B32.BECH32M_CONST if m else B32.BECH32_CONST)
+        if len(enc) > 90:
+            return
+        back = B32.convertbits(groups, 5, 8, False)       # None: the groups do not regroup into whole bytes with at most 4 zero padding bits
+        r = tf('bech32-decode %s' % enc)
+        ctx.count('bech32-padding:' + ('invalid' if back is None else 'valid'))
+        rejected = 'failed to bech32' in r.get('err', '')
+        if back is not None:
+            if rejected or out_line(r) != bytes(back).hex():
+                raise Violation(c, 'valid bech32(m) string %s rejected / decoded differently' % enc, observed=r, expected=bytes(back).hex())
+        elif not rejected:
+            raise Violation(c, 'bech32(m) string %s with invalid padding (%s) was decoded to %r' % (enc, how, out_line(r)), observed=r, expected='rejected')
     elif k == 'compact':
         _, data = c
         n = len(data)
